@@ -68,7 +68,10 @@ def targets(tier):
 
 
 def expand_target(t):
-    th = extract.tree_hash()
+    import hashlib
+    with open(os.path.join(extract.VERIF, "corpus", "src", "lib.rs"), "rb") as fh:
+        ch = hashlib.sha256(fh.read()).hexdigest()[:8]
+    th = extract.tree_hash() + "-" + ch      # the corpus crate is part of what is expanded
     d = os.path.join(extract.CACHE, "expand", th)
     os.makedirs(d, exist_ok=True)
     out = os.path.join(d, t["name"].replace("/", "_") + ".expanded.rs")
@@ -226,8 +229,10 @@ def check_item(ctx, t, it, r, key, crate):
         p = ps[0]
         ctx.check("used" in p["attrs"] and any(a.startswith("link_section=") and ".init_array" in a for a in p["attrs"]), "R12.1", [name, key, "used+init_array"],
                   "`%s`: constructor attributes %s (needs #[used] and #[link_section = \".init_array\"])" % (ident, p["attrs"]), where)
-        ctx.check(p["ty"] == 'extern"C"fn()' and p["init"] == "push", "R12.1", [name, key, "constructor-is-push"], "`%s`: PUSH: %s = %s" % (ident, p["ty"], p["init"]), where)
-    pf = r["push_fns"]
+        ctx.check(p["ty"] == 'extern"C"fn()' and any(f_["name"] == p["init"] for f_ in r["push_fns"]), "R12.1", [name, key, "constructor-is-push"],
+                  "`%s`: constructor slot %s: %s = %s does not name a function of this registration" % (ident, p.get("name"), p["ty"], p["init"]), where)
+    # the function the constructor slot names (whatever the macro calls it)
+    pf = [f_ for f_ in r["push_fns"] if ps and f_["name"] == ps[0]["init"]]
     if ctx.check(len(pf) == 1, "R12.1", [name, key, "one-push-fn"], "`%s`: %d push functions" % (ident, len(pf)), where):
         f = pf[0]
         calls = f["calls"]
@@ -239,7 +244,7 @@ def check_item(ctx, t, it, r, key, crate):
                 ctx.check(arg == "&" + r["static"], "R12.1", [name, key, "pushes-own-node"], "`%s`: pushes %s, expected &%s" % (ident, arg, r["static"]), where)
             else:
                 ns = f["node_statics"]
-                ok2 = arg == "&NODE" and len(ns) == 1 and ns[0]["init"].endswith("EntryList::new(&%s)" % r["static"])
+                ok2 = len(ns) == 1 and arg == "&" + ns[0]["name"] and ns[0]["init"].endswith("EntryList::new(&%s)" % r["static"])
                 ctx.check(ok2, "R12.1", [name, key, "pushes-node-of-own-entry"], "`%s`: pushes %s with NODE = %s" % (ident, arg, [n["init"] for n in ns]), where)
     es = structs(r, want_struct)
     ctx.check(len(es) == 1, "R12.1", [name, key, "one-entry-literal"], "`%s`: %d %s literals" % (ident, len(es), want_struct), where)
@@ -298,7 +303,9 @@ def check_item(ctx, t, it, r, key, crate):
             ctx.check("Option::None" in gs[0]["fields"].get("generic_benches", ""), "R12.1", [name, key, "group-module-has-no-benches-of-its-own"], "a bench_group module emits generic_benches", where)
         return
     # ---- args (R12.3 / R17.5)
-    arg_statics = [s for s in r["statics"] if s["name"] == "__DIVAN_ARGS"]
+    # the shared argument cell, by type (its name is the macro's business)
+    arg_statics = [s for s in r["statics"] if s["ty"].endswith("BenchArgs")]
+    ARGS = arg_statics[0]["name"] if arg_statics else "<no BenchArgs static>"
     if args is not None:
         ctx.check(len(arg_statics) == 1 and arg_statics[0]["init"].endswith("BenchArgs::new()"), "R12.3", [name, key, "one-__DIVAN_ARGS"],
                   "`%s` has args but %d __DIVAN_ARGS statics" % (ident, len(arg_statics)), where)
@@ -315,7 +322,7 @@ def check_item(ctx, t, it, r, key, crate):
             ctx.check(re.search(r"(?<![A-Za-z0-9_#])(r#)?%s(?![A-Za-z0-9_])" % re.escape(plain_ident), b) is not None, "R12.2", [name, key, "runs-own-function"],
                       "the runner of `%s` does not call it: %s" % (ident, b[:160]), where)
             if args is not None:
-                ctx.check("__DIVAN_ARGS.runner(" in b and "ToStringHelper(arg).to_string()" in b, "R12.2", [name, key, "args-runner"], "args runner: %s" % b[:200], where)
+                ctx.check(ARGS + ".runner(" in b and "ToStringHelper(arg).to_string()" in b, "R12.2", [name, key, "args-runner"], "args runner: %s" % b[:200], where)
                 if "!" in args["value"]:
                     ctx.note("%s: args of %s contain a macro invocation (expanded in the output); expression text not compared" % (name, ident))
                 else:
@@ -332,13 +339,25 @@ def check_item(ctx, t, it, r, key, crate):
         return
     ctx.check(len(gb) == want_n, "R12.2", [name, key, "product-size"], "`%s`: %d GenericBenchEntry literals, expected |types| x |consts| = %d x %d" % (ident, len(gb), nt, nc), where,
               detail={"item": ident, "types": nt, "consts": "external(20 candidates)" if ext_consts else nc, "entries": len(gb)})
+    # the constant table, by role: the const that the entries' const_value fields index (`EntryConst::new(&X[j])`)
+    refs = set()
+    for g in gb:
+        m_ = re.search(r"EntryConst::new\(&([A-Za-z_][A-Za-z0-9_]*)\[", g["fields"].get("const_value", ""))
+        if m_:
+            refs.add(m_.group(1))
+    if not refs:
+        # no entry refers to it (empty product): the one array-typed const of the registration
+        refs = {c["name"] for c in r["consts"] if c["ty"].startswith("[") or c["ty"].startswith("&[")}
+    CONSTS = list(refs)[0] if len(refs) == 1 else "<no single constant table>"
     if ext_consts:
-        cc = [c for c in r["consts"] if c["name"] == "__DIVAN_CONST_COUNT"]
-        ctx.check(len(cc) == 1 and cc[0]["init"] == "__DIVAN_CONSTS.len()", "R12.2", [name, key, "external-const-count"], "__DIVAN_CONST_COUNT = %s" % [c["init"] for c in cc], where)
-        sh = [s for s in r["statics"] if s["name"] == "__DIVAN_GENERIC_BENCHES"]
-        ctx.check(len(sh) == nt and all("shrink_array(" in s["init"] and "__DIVAN_CONST_COUNT" in s["ty"] for s in sh), "R12.2", [name, key, "shrunk-to-const-count"],
-                  "external consts are not routed through shrink_array to __DIVAN_CONST_COUNT", where)
-    dc = [c for c in r["consts"] if c["name"] == "__DIVAN_CONSTS"]
+        # its length const (`X.len()`) and the per-type entry arrays shrunk to that length
+        cc = [c for c in r["consts"] if c["init"] == CONSTS + ".len()"]
+        ctx.check(len(cc) == 1, "R12.2", [name, key, "external-const-count"], "length constants of %s: %s" % (CONSTS, [c["name"] for c in cc]), where)
+        COUNT = cc[0]["name"] if cc else "<no length constant>"
+        sh = [s for s in r["statics"] if "GenericBenchEntry" in s["ty"]]
+        ctx.check(len(sh) == nt and all("shrink_array(" in s["init"] and COUNT in s["ty"] for s in sh), "R12.2", [name, key, "shrunk-to-const-count"],
+                  "external consts are not routed through shrink_array to %s" % COUNT, where)
+    dc = [c for c in r["consts"] if c["name"] == CONSTS]
     if consts is not None:
         if ctx.check(len(dc) == 1, "R12.2", [name, key, "one-__DIVAN_CONSTS"], "__DIVAN_CONSTS definitions: %d" % len(dc), where):
             ctx.check("!" in consts["value"] or consts["value"] in dc[0]["init"] or (cl is not None and all(e in dc[0]["init"] for e in cl)), "R12.2", [name, key, "consts-as-written"],
@@ -359,7 +378,7 @@ def check_item(ctx, t, it, r, key, crate):
         ci = None
         if consts is not None:
             cv = f.get("const_value", "")
-            m = re.search(r"EntryConst::new\(&__DIVAN_CONSTS\[(.*)\]\)\)$", cv)
+            m = re.search(r"EntryConst::new\(&%s\[(.*)\]\)\)$" % re.escape(CONSTS), cv)
             idx = m.group(1) if m else None
             ci = const_index(idx)
             ctx.check(ci is not None, "R12.2", [name, key, "const_value-indexes-__DIVAN_CONSTS"], "const_value = %s" % cv[:100], where)
@@ -379,7 +398,7 @@ def check_item(ctx, t, it, r, key, crate):
                     ctx.check(ok, "R12.2", [name, key, "own-type-in-own-position", str((ti, ci))],
                               "entry (%s, %s) instantiates type parameter %s with %s, expected %s" % (ti, ci, gp["name"], a, tl[ti] if ti is not None else "?"), where)
                 else:
-                    aj = const_index(a.strip("{}")[len("__DIVAN_CONSTS["):-1]) if a.strip("{}").startswith("__DIVAN_CONSTS[") else None
+                    aj = const_index(a.strip("{}")[len(CONSTS + "["):-1]) if a.strip("{}").startswith(CONSTS + "[") else None
                     ok = ci is not None and aj == ci
                     ctx.check(ok, "R12.2", [name, key, "own-const-in-own-position", str((ti, ci))],
                               "entry (%s, %s) instantiates const parameter %s with %s, expected __DIVAN_CONSTS[%s]" % (ti, ci, gp["name"], a, ci), where)
@@ -387,7 +406,7 @@ def check_item(ctx, t, it, r, key, crate):
         seen.add((ti, ci))
         ctx.check(("BenchEntryRunner::Args(" in b) == (args is not None), "R12.2", [name, key, "runner-kind", str((ti, ci))], "runner kind vs args", where)
         if args is not None:
-            ctx.check("__DIVAN_ARGS.runner(" in b, "R12.2", [name, key, "shared-args", str((ti, ci))], "a generic instantiation does not use the shared __DIVAN_ARGS", where)
+            ctx.check(ARGS + ".runner(" in b, "R12.2", [name, key, "shared-args", str((ti, ci))], "a generic instantiation does not use the shared argument cell %s" % ARGS, where)
     if len(gb) == want_n and want_n:
         full = {(i if types is not None else None, j if consts is not None else None) for i in range(nt) for j in range(nc)}
         ctx.check(seen == full, "R12.2", [name, key, "covers-the-whole-product"], "combinations emitted: %s" % sorted(seen, key=str), where)
@@ -400,7 +419,7 @@ def const_index(idx):
     m = re.match(r"^(\d+)usize$", idx)
     if m:
         return int(m.group(1))
-    m = re.match(r"^if(\d+)usize<__DIVAN_CONST_COUNT\{(\d+)usize\}else\{0\}$", idx)
+    m = re.match(r"^if(\d+)usize<[A-Za-z_][A-Za-z0-9_]*\{(\d+)usize\}else\{0\}$", idx)
     if m and m.group(1) == m.group(2):
         return int(m.group(1))
     return None
